@@ -15,6 +15,26 @@ Definition strip_ed (disc : bool) (ob : eobs) : eobs :=
   if disc then ob
   else mkEobs (e_commit ob) (e_msgs ob) (e_keys_ok ob) (e_tokens ob) (e_costly ob) (e_nonces ob) [].
 
+(* ---- the executable property: the verdict characterisation of C12_commit_verdict / C12_exec_verdict, evaluated on the
+   implementation's verdict v.  Some field about a chain the observer is not designated for: v must be "rejected".
+   Every field about a designated chain: v is "accepted" EXACTLY when the observer has a peer id, the destination is
+   configured (commit), the observation is well-formed and (execute) names configured chains only.
+   Until the judge-soundness pass cv_ok / ev_ok were RolesP.commit_prop_check / exec_prop_check, which in the second
+   case only demanded "accepted" when those conditions hold and left the verdict FREE when they fail: an implementation
+   that accepts a malformed observation (duplicate roots, nil price, overlapping reports ...), an observation while the
+   destination is not configured, or an empty observation from an oracle without peer id passed the property although
+   C12_commit_verdict / C12_exec_verdict say "rejected" (witnesses: JudgeSoundC12P.cv_ok_before_unsound /
+   ev_ok_before_unsound).  The checks below are strictly stronger and still accept the model's own verdict
+   (JudgeSoundC12P.cv_model_passes / ev_model_passes). ---- *)
+Definition commit_verdict_check (g : cfg) (retry : bool) (o : N) (ob : cobs) (v : bool) : bool :=
+  if is_nil (bad_fields g o (cfields g ob))
+  then Bool.eqb v (known_oracle g o && dest_configured g && wf_commit retry ob)
+  else negb v.
+Definition exec_verdict_check (g : cfg) (o : N) (ob : eobs) (v : bool) : bool :=
+  if is_nil (bad_fields g o (efields g ob))
+  then Bool.eqb v (known_oracle g o && wf_exec ob && chains_known g ob)
+  else negb v.
+
 (* ---- sink C12_commit: input (cfg, (previous merkle outcome type, RMN signatures in query, RMN enabled, discovery
    processor present, contracts initialised), q.RetryRMNSignatures, observer, observation); output: accepted? ---- *)
 Definition cctx := (N * bool * bool * bool * bool)%type.
@@ -23,7 +43,7 @@ Definition cv_in := (cfg * cctx * bool * N * cobs)%type.
 Definition cv_model (i : cv_in) : bool :=
   let '(g, c, retry, o, ob) := i in validate_commit g retry o (strip_cd (cctx_disc c) ob).
 Definition cv_ok (i : cv_in) (v : bool) : bool :=
-  let '(g, c, retry, o, ob) := i in commit_prop_check g retry o (strip_cd (cctx_disc c) ob) v.
+  let '(g, c, retry, o, ob) := i in commit_verdict_check g retry o (strip_cd (cctx_disc c) ob) v.
 Definition cv_known (i : cv_in) : N :=
   let '(g, c, retry, o, ob) := i in known_code (bad_fields g o (cfields g (strip_cd (cctx_disc c) ob))).
 Definition cv_judge := judge cv_model Bool.eqb cv_ok cv_known.
@@ -35,7 +55,7 @@ Definition ectx_disc (c : ectx) : bool := let '(_, d, _) := c in d.
 Definition ev_in := (cfg * ectx * N * eobs)%type.
 Definition ev_model (i : ev_in) : bool := let '(g, c, o, ob) := i in validate_exec g o (strip_ed (ectx_disc c) ob).
 Definition ev_ok (i : ev_in) (v : bool) : bool :=
-  let '(g, c, o, ob) := i in exec_prop_check g o (strip_ed (ectx_disc c) ob) v.
+  let '(g, c, o, ob) := i in exec_verdict_check g o (strip_ed (ectx_disc c) ob) v.
 Definition ev_known (i : ev_in) : N :=
   let '(g, c, o, ob) := i in known_code (bad_fields g o (efields g (strip_ed (ectx_disc c) ob))).
 Definition ev_judge := judge ev_model Bool.eqb ev_ok ev_known.
